@@ -379,6 +379,48 @@ func c07Body(c *ev.Ctx) {
 	if len(c.CapsHit()) == 0 {
 		c.Set("exhaustive", true)
 	}
+	runPairIsolation(c, c07Pairs())
 	c.Set("rule", "per (mode, dims): valid batches from several tree states (empty, holes, last leaf, duplicates, padding with garbage) and, for each, every single-field perturbation (+1) and every shape perturbation (each array one fewer / one more / empty, each inner proof shorter / longer / empty) and batches of other dimensions; each returned proof is verified against a menu of public inputs (hash, hash mod r, +r, +3r must accept; +-1, bit flips, 0, r-1, other batches' hashes must reject) and against the other mode's system; distinct = (mode, perturbation kind) classes")
 	c.Assume("Groth16 soundness is not in scope: 'rejected for every other public input' is enumerated on the candidate menu")
+}
+
+// c07Pairs: two callers of the prover on ONE proving system at the same time, whose parameter sets collide
+// on the input hash (and everything else but one sibling): the valid one must get a verifying proof, the
+// invalid one an error, whatever the interleaving.
+func c07Pairs() []pairScenario {
+	ps, err := getSystem("insertion", 1, 1, 0)
+	if err != nil {
+		return nil
+	}
+	vb := validInsBatches(1, 1)
+	if len(vb) == 0 {
+		return nil
+	}
+	good := vb[0]
+	bad := good
+	bad.Proofs = [][]string{{ref.BN.Mod(new(big.Int).Add(bigs(good.Proofs[0][0]), ref.B(1))).String()}}
+	run := func(b *insBatch) (out string) {
+		defer func() {
+			if r := recover(); r != nil {
+				out = fmt.Sprintf("panic: %v", r)
+			}
+		}()
+		proof, err := ps.ProveInsertion(b.params())
+		if err != nil {
+			return "error, no proof"
+		}
+		if proof == nil {
+			return "no error, no proof"
+		}
+		if e := ps.VerifyInsertion(*bigs(b.Hash), proof); e != nil {
+			return "proof that does not verify for the parameters' input hash"
+		}
+		return "proof that verifies for the parameters' input hash"
+	}
+	return []pairScenario{{Name: "ProveInsertion: valid batch next to an invalid one with the same input hash, one proving system", MaxBound: 1, Parallel: true, F: func(i int) string {
+		if i == 0 {
+			return run(&good)
+		}
+		return run(&bad)
+	}}}
 }
